@@ -131,6 +131,10 @@ Proof.
     destruct (call_at st1 (time st1 + S d) (HSetRes f)) as [st2 h] eqn:E2.
     eapply fsame_trans; [|apply fsame_do_yield]. unfold new_fut in E1. inversion E1; subst.
     unfold call_at in E2. inversion E2; subst. reflexivity.
+  - destruct (new_fut (emit st (EvStart id (time st)))) as [st1 f] eqn:E1.
+    destruct (call_at st1 (time st1 + d) (HSetExc f)) as [st2 h] eqn:E2.
+    eapply fsame_trans; [|apply fsame_do_yield]. unfold new_fut in E1. inversion E1; subst.
+    unfold call_at in E2. inversion E2; subst. reflexivity.
   - eapply fsame_trans; [|apply fsame_do_yield]; reflexivity.
   - eapply fsame_trans; [|apply fsame_do_yield]; reflexivity.
   - pose proof (fsame_scope_enter st pre (match delay with Some d => Some (time st + d) | None => None end)) as F.
@@ -226,6 +230,7 @@ Proof.
     + left. exact (fsame_trans _ _ _ F0 (fsame_run_cb st1 f c)).
     + left. destruct (f_st (get_fut st1 f)); try exact F0;
         exact (fsame_trans _ _ _ F0 (same_fsame _ _ (same_fut_finish st1 f FRes))).
+    + left. exact (fsame_trans _ _ _ F0 (same_fsame _ _ (same_fut_finish st1 f FExc))).
     + left. exact (fsame_trans _ _ _ F0 (fsame_scope_cancel st1 s)).
     + left. exact (fsame_trans _ _ _ F0 (fsame_deliver st1 s)).
     + destruct (task_done st1); [left; exact F0|].
